@@ -24,12 +24,12 @@ Dev(d) == d \in Deviations
 OriginTab == <<VInt(7, -11, 3), VInt(-2, 5, 1)>>      \* p.o = 0 : no origin was ever given (default), else index
 OriginVec(o) == IF o = 0 THEN VZero ELSE OriginTab[o]
 Origins == IF Scope = 1 THEN {1} ELSE {1, 2}          \* values the origin setter may store
-Rots  == IF Scope = 1 THEN {1, 6} ELSE {1, 2, 6, 11}
+Rots  == IF Scope = 1 THEN {1, 6} ELSE {1, 6, 11}
 Dips  == IF Scope = 1 THEN {1, 2, 5} ELSE {1, 2, 5, 12}   \* 2 = 90 degrees = vertical
 SizesU == IF Scope = 1 THEN {1, 2} ELSE {1, 2, 3}
-SizesV == IF Scope = 1 THEN {1, 3} ELSE {1, 3, 4}
+SizesV == IF Scope = 1 THEN {1, 3} ELSE {1, 3}
 SizesW == IF Scope = 1 THEN {1} ELSE {1, 3}
-CountsU == IF Scope = 1 THEN {1, 2} ELSE {1, 2, 3}
+CountsU == IF Scope = 1 THEN {1, 2} ELSE {1, 3}
 CountsV == IF Scope = 1 THEN {2} ELSE {1, 2}
 DelimTabU == << <<0, 1, 3>>, <<0, -2>>, <<0, 2, 3, 5>> >>
 DelimTabV == << <<0, 2>>, <<0, -1, -2>>, <<0, 1, 4>> >>
@@ -37,7 +37,8 @@ DelimTabZ == << <<0, -1>>, <<0, 1, 2>> >>
 DelimsU == IF Scope = 1 THEN {1, 2} ELSE {1, 2, 3}
 DelimsV == IF Scope = 1 THEN {1, 2} ELSE {1, 2, 3}
 DelimsZ == {1, 2}
-OctCounts == IF Scope = 1 THEN {2} ELSE {2, 4}
+OctCountsU == IF Scope = 1 THEN {2} ELSE {2, 4}
+OctCounts == {2}
 OctCellsTab == << << <<0, 0, 0, 1>>, <<1, 0, 0, 1>>, <<0, 1, 0, 1>>, <<1, 1, 0, 1>>,
                      <<0, 0, 1, 1>>, <<1, 0, 1, 1>>, <<0, 1, 1, 1>>, <<1, 1, 1, 1>> >>,
                   << <<0, 0, 0, 2>> >>,
@@ -110,13 +111,16 @@ SetVSize == Kind \in {"grid2d", "octree"} /\ \E s \in SizesV :      \* grid2d.py
 SetWSize == Kind = "octree" /\ \E s \in SizesW :                     \* octree.py:341-353
     Setter("w_cell_size", s, Size(s), [p EXCEPT !.ws = s], {})
 SetUCount == \/ Kind = "grid2d" /\ \E n \in CountsU : Setter("u_count", n, n, [p EXCEPT !.nu = n], {"CountKeepsCache"})  \* grid2d.py:345-352
-             \/ Kind = "octree" /\ \E n \in OctCounts : Setter("u_count", n, n, [p EXCEPT !.nu = n], {})                  \* octree.py:287-299
+             \/ Kind = "octree" /\ \E n \in OctCountsU : Setter("u_count", n, n, [p EXCEPT !.nu = n], {})                  \* octree.py:287-299
 SetVCount == \/ Kind = "grid2d" /\ \E n \in CountsV : Setter("v_count", n, n, [p EXCEPT !.nv = n], {"CountKeepsCache"})  \* grid2d.py:375-383
              \/ Kind = "octree" /\ \E n \in OctCounts : Setter("v_count", n, n, [p EXCEPT !.nv = n], {})                  \* octree.py:325-336
 SetWCount == Kind = "octree" /\ \E n \in OctCounts : Setter("w_count", n, n, [p EXCEPT !.nw = n], {})                     \* octree.py:362-373
 \* the base dimensions of an octree do not enter the centres: the records do (octree.py:141-157)
-SetOctreeCells == Kind = "octree" /\ \E c \in OctCellSets :          \* octree.py:189-210
-    Setter("octree_cells", c, OctCellsTab[c], [p EXCEPT !.cells = c], {})
+\* octree.py:189-210 : the setter has two branches - a plain (N, 4) integer array is converted, an array of
+\* records (I, J, K, NCells) is taken as it is; both must drop the cached centres
+SetOctreeCells == Kind = "octree" /\ \E c \in OctCellSets :
+    \/ Setter("octree_cells", c, OctCellsTab[c], [p EXCEPT !.cells = c], {})
+    \/ Setter("octree_cells_records", c, OctCellsTab[c], [p EXCEPT !.cells = c], {})
 SetUDelims == Kind = "block" /\ \E d \in DelimsU : Setter("u_cell_delimiters", d, DelimTabU[d], [p EXCEPT !.ud = d], {})   \* block_model.py:196-203
 SetVDelims == Kind = "block" /\ \E d \in DelimsV : Setter("v_cell_delimiters", d, DelimTabV[d], [p EXCEPT !.vd = d], {})   \* block_model.py:228-235
 SetZDelims == Kind = "block" /\ \E d \in DelimsZ : Setter("z_cell_delimiters", d, DelimTabZ[d], [p EXCEPT !.zd = d], {})   \* block_model.py:260-267
